@@ -141,4 +141,20 @@ PROPS = {
         "assumptions": COMMON_ASSUME + ["the socket layer is a model of Linux loopback semantics (connect EINPROGRESS then SO_ERROR, EAGAIN after a positive poll is legal, RST on close with unread data)",
                                         "after EINTR on connect the model only offers what Linux offers a non-blocking connect (EALREADY, then 0)"],
     },
+    "C10": {
+        "harness": "sock_state",
+        "variants": ["A.c11.posix"],
+        "quick_s": 10, "thorough_s": 240,
+        "level": "exploration",
+        "rule": ("one evaluation = one simulated run of a generated call history on one or two library sockets (client, server with accepted socket, or datagram scenario; "
+                 "IPv4/IPv6) against a scripted raw peer whose actions are events on the simulated clock: option calls with timeouts from {0,1,50,1000,60000,negative}, "
+                 "connect to a listener / to nobody / to a listener with a full backlog, accept, send, receive, send_to, receive_from, shutdown, io_condition_wait, close, "
+                 "calls after close, close again, free; every call is classified by the socket state machine model; distinct = distinct event-log hash; "
+                 "non-trivial = more than one context switch or one fired fault"),
+        "probes": ["state.timed_out_on_time", "state.long_timeout_cost_nothing", "state.nonblocking_would_block", "state.blocking_waited_for_peer", "state.io_on_closed",
+                   "state.close_idempotent", "state.connect_in_progress", "state.connect_refused", "state.connect_stalled_timed_out", "state.accepted", "state.backlog_ignored_after_listen"],
+        "components": {"real": ["psocket.c", "psocketaddress.c", "perror.c", "psysclose-unix.c", "pmem.c", "pmain.c"], "stub": STUB_NET + STUB_PTHREAD},
+        "assumptions": COMMON_ASSUME + ["time-outs are compared on the simulated clock (exact); timers may fire late, never early",
+                                        "the scripted peer talks to the simulated kernel directly (raw calls), not through the library"],
+    },
 }
